@@ -414,6 +414,7 @@ func genC12(t *rapid.T) *Bundle {
 		Constants: map[string]any{"unit": "ms", "conf": map[string]any{"on": true, "depth": 2.0}, "levels": []any{1.0, "two", nil}}})
 	c.Vars = []map[string]any{{}}
 	c.NativeInts = rapid.Bool().Draw(t, "native_ints")
+	c.TypedTables = rapid.IntRange(0, 4).Draw(t, "typed_tables") == 0
 	c.Stubs.Lat = drawLatencies(t, g.sites, 6)
 	tags := []string{"shape:" + shape}
 	if wrapped {
